@@ -82,6 +82,28 @@ def builderLayoutOld (b t : BitVec 64) : BitVec 64 × BitVec 64 := (b, t)
 /-- executable form of the domain of `header_roundtrip`: a layout whose header keeps every id bit. -/
 def layoutOK (b t : BitVec 64) : Bool := decide (t ≤ b) && decide (b ≤ 63#64)
 
+/-! ## the bucket bits the index builder asks for (ingest/compact/build.go)
+
+`bucketBitsForCount(count) = int(math.Ceil(math.Log(float64(count)) / math.Log(2.0)))`, at least 1.  The Go
+code computes this in floating point; the model is the exact integer function (smallest `b` with
+`2^b ≥ count`, at least 1).  Measured against the real function (harness `bbsweep`/`bbits`): identical for
+every `count < 2^29` (exhaustively); from `count = 2^29` on the float result can be off by one next to a power of two
+(2^29 ↦ 30, 2^49+1 ↦ 49, …) — see notes/C10.md.  `bucketBitsClose` is that measured tolerance. -/
+
+def ceilLog2 (n : Nat) : Nat := if n ≤ 1 then 0 else Nat.log2 (n - 1) + 1
+
+def bucketBitsForCount (n : Nat) : Nat := max 1 (ceilLog2 n)
+
+/-- what the correspondence run accepts as the Go result `g` for a count `n`: exact below 2^29, within one
+(and still ≥ 1) above. -/
+def bucketBitsClose (n g : Nat) : Bool :=
+  if n < 2 ^ 29 then g == bucketBitsForCount n
+  else decide (1 ≤ g) && (g == bucketBitsForCount n || g + 1 == bucketBitsForCount n || g == bucketBitsForCount n + 1)
+
+/-- `var tagBits` of build.go by feature type (point, path, area, relation). -/
+def tagBitsOfType : Nat → Option Nat
+  | 0 => some 2 | 1 => some 0 | 2 => some 0 | 3 => some 0 | _ => none
+
 /-! ## tile ids (tiles.go) -/
 
 def tileIDFromXYZ (x y z : BitVec 64) : BitVec 64 := ((z <<< 59) ||| (y <<< z)) ||| x
